@@ -311,6 +311,16 @@ def fam_c08(R, n):
             args = rust_str(p) + ('' if pr is None else ', priority = %d' % pr)
             vs.append('#[%s(%s)] V%d,' % ('token' if tok else 'regex', args, j))
         out.append(dict(family='c08', src=enum([], vs), meta=dict(leaves=leaves)))
+    # enumerated (round 28): ignore(case) tokens that are the same once the case is ignored - ASCII and non-ASCII letters, str and
+    # byte-string literals (ASCII folding only), two and three of them, with a bystander; the controls differ in a letter
+    for (x, y, same) in [('abc', 'ABC', True), ('école', 'École', True), ('straße', 'STRASSE', False), ('ǆ', 'ǅ', True), ('σ', 'ς', True),
+                         ('жук', 'ЖУК', True), ('k', '\u212a', True), ('école', 'ecole', False), ('ñ', 'Ñ', True), ('ÿ', 'Ÿ', True)]:
+        for order in ((x, y), (y, x)):
+            vs = ['#[token(%s, ignore(case))] V%d,' % (rust_str(t), j) for j, t in enumerate(order)]
+            out.append(dict(family='c08-caseless', src=enum([], vs), meta=dict(leaves=None)))
+            out.append(dict(family='c08-caseless', src=enum([], vs + ['#[regex("[0-9]+")] N,']), meta=dict(leaves=None)))
+        vs = ['#[token(%s, ignore(case))] V0,' % rust_str(x), '#[token(%s)] V1,' % rust_str(y)]
+        out.append(dict(family='c08-caseless', src=enum([], vs), meta=dict(leaves=None)))
     # enumerated (round 27): an explicit priority that equals the default of the pattern it overlaps with - a tie like any other,
     # whichever of the two is the written one and in either declaration order; the controls are one off
     for (k1, p1, d1), (k2, p2, d2) in [(('token', 'let', 6), ('regex', '[a-z]+', 2)), (('regex', 'ab', 4), ('regex', '[a-c]b', 4)),
